@@ -166,6 +166,17 @@ fn run_call(call: &str, cc: &Covercrypt, mpk: &MasterPublicKey, msk: &mut Master
                 cc.rekey(msk, &ap).map_err(|e| e.to_string())?;
                 Product::Refreshed
             }
+            "decaps_empty" => {
+                // a legal wire value the library never produces: tag, traps, no entry at all -> Ok(None)
+                let mut bytes = enc.0.serialize().map_err(|e| e.to_string())?.to_vec();
+                let n_traps = bytes[16] as usize;
+                bytes.truncate(16 + 1 + 32 * n_traps);
+                bytes.push(0);
+                bytes.push(0);
+                let empty = XEnc::deserialize(&bytes).map_err(|e| e.to_string())?;
+                let s = cc.decaps(usk, &empty).map_err(|e| e.to_string())?;
+                Product::Decaps(s.is_none())
+            }
             "decaps" => {
                 let s = cc.decaps(usk, &enc.0).map_err(|e| e.to_string())?;
                 Product::Decaps(s.map(|x| x.to_vec()) == Some(enc.1.clone()))
@@ -426,6 +437,44 @@ pub fn fresh(args: &[String]) -> Result<(), String> {
                 writeln!(w, "{rec}").map_err(|e| e.to_string())?;
             }
         }
+    }
+    // C16 across instances: fresh instances running the SAME history must share nothing
+    {
+        let mut all: Vec<String> = Vec::new();
+        for _ in 0..4 {
+            let cc = Covercrypt::default();
+            let r = catch_unwind(AssertUnwindSafe(|| -> Result<Vec<String>, String> {
+                let (mut msk, _) = cc.setup().map_err(|e| e.to_string())?;
+                msk.access_structure.add_anarchy("D".into()).map_err(|e| e.to_string())?;
+                msk.access_structure
+                    .add_attribute(QualifiedAttribute::new("D", "a"), EncryptionHint::Hybridized, None)
+                    .map_err(|e| e.to_string())?;
+                let mpk = cc.update_msk(&mut msk).map_err(|e| e.to_string())?;
+                let ap = AccessPolicy::parse("D::a").unwrap();
+                let usk = cc.generate_user_secret_key(&mut msk, &ap).map_err(|e| e.to_string())?;
+                let (s, e) = cc.encaps(&mpk, &ap).map_err(|e| e.to_string())?;
+                let (_, h) = EncryptedHeader::generate(&cc, &mpk, &ap, Some(b"m"), None).map_err(|e| e.to_string())?;
+                let mut fps = Vec::new();
+                collect_fps(&msk.verif_view(), &mut fps);
+                collect_fps(&usk.verif_view()["id"], &mut fps);
+                collect_fps(&e.verif_view(), &mut fps);
+                fps.push(hex(&s[..8]));
+                if let Some(em) = &h.encrypted_metadata {
+                    fps.push(hex(&em[..12.min(em.len())]));
+                }
+                fps.sort();
+                fps.dedup(); // within one instance the same value legitimately appears in several views
+                Ok(fps)
+            }));
+            match r {
+                Ok(Ok(f)) => all.extend(f),
+                _ => all.push("failed".into()),
+            }
+        }
+        let distinct = all.iter().collect::<HashSet<_>>().len();
+        let rec = json!({"k": "fresh", "call": "aligned_instances", "category": "same_history_on_fresh_instances", "threads": 1,
+                         "instances": 4, "total": all.len(), "distinct": distinct, "expected": all.len(), "opened": 0});
+        writeln!(w, "{rec}").map_err(|e| e.to_string())?;
     }
     // C16: the metadata key differs from the returned secret for EVERY authentication data value
     {
